@@ -3021,15 +3021,17 @@ namespace bloch::runtime {
         } else if (auto indexExpr = dynamic_cast<IndexExpression*>(e)) {
             Value coll = eval(indexExpr->collection.get());
             Value idxv = eval(indexExpr->index.get());
-            int idxi = 0;
+            // Keep the index 64-bit until it has been bounds-checked: narrowing a long first
+            // would wrap e.g. 4294967296L to element 0.
+            std::int64_t idxi = 0;
             if (idxv.type == Value::Type::Int)
                 idxi = idxv.intValue;
             else if (idxv.type == Value::Type::Long)
-                idxi = static_cast<int>(idxv.longValue);
+                idxi = idxv.longValue;
             else if (idxv.type == Value::Type::Bit)
                 idxi = idxv.bitValue;
             else if (idxv.type == Value::Type::Float)
-                idxi = static_cast<int>(idxv.floatValue);
+                idxi = static_cast<std::int64_t>(idxv.floatValue);
             else
                 throw BlochError(ErrorCategory::Runtime, indexExpr->line, indexExpr->column,
                                  "index must be numeric");
@@ -3153,15 +3155,15 @@ namespace bloch::runtime {
                                  "assignment target must be a variable");
             Value arr = lookup(var->name);
             Value idxv = eval(aassign->index.get());
-            int i = 0;
+            std::int64_t i = 0;  // 64-bit until bounds-checked (see IndexExpression)
             if (idxv.type == Value::Type::Int)
                 i = idxv.intValue;
             else if (idxv.type == Value::Type::Long)
-                i = static_cast<int>(idxv.longValue);
+                i = idxv.longValue;
             else if (idxv.type == Value::Type::Bit)
                 i = idxv.bitValue;
             else if (idxv.type == Value::Type::Float)
-                i = static_cast<int>(idxv.floatValue);
+                i = static_cast<std::int64_t>(idxv.floatValue);
             else
                 throw BlochError(ErrorCategory::Runtime, aassign->line, aassign->column,
                                  "index must be numeric");
